@@ -154,6 +154,7 @@ def run_case(case):
         plain = open_backend(sc, case["config"], cache=False)
         model = storeops.Model()
         live = {}  # (f, a) -> (memento read at creation through the cache-less backend, sha, bytes, valkey)
+        earlier = {}  # (f, a) -> (memento, valkey) of the write before the latest one (content-addressed results only)
         interesting = False
 
         def fail(sig, msg, step):
@@ -210,6 +211,9 @@ def run_case(case):
             for key in list(live):
                 if key not in model.d:
                     del live[key]
+            for key in list(earlier):
+                if key not in model.d or key not in live:
+                    del earlier[key]
             if op[0] == "memoize" and not failed_write:
                 key = (op[1], op[2])
                 m = plain.get_memento(refs.fwah(*key))
@@ -223,6 +227,10 @@ def run_case(case):
                          "after %s: content key %s: %r" % (op, m.content_key, e), step)
                     break
                 sha = hashlib.sha256(data).hexdigest() if data is not None else None
+                if key in live and live[key][0].content_key is not None and live[key][0].content_key.key.startswith("c/"):
+                    earlier[key] = (live[key][0], live[key][3])
+                else:
+                    earlier.pop(key, None)
                 live[key] = (m, sha, data, op[3])
                 if any(k != key and v[0].content_key is not None and m.content_key is not None
                        and v[0].content_key.key == m.content_key.key and v[3] != op[3] for k, v in live.items()):
@@ -261,6 +269,19 @@ def run_case(case):
                     seen_hash[sha] = ck
                     if not plain._data_source.exists_versioned(ck):
                         fail("content key of a live memento does not exist", str(ck), step)
+            # a memento of the write before the latest one still reads its own bytes - also through the backend that wrote
+            # both (its memory cache and weak references are keyed by call, not by content)
+            for key, (m_old, vk_old) in earlier.items():
+                out["obs"]["earlier_mementos_reread_through_the_writing_backend"] += 1
+                try:
+                    value = b.read_result(m_old)
+                except Exception as e:
+                    fail("live memento became unreadable", "memento of the earlier write of %s (value %s) through the writing backend: %r"
+                         % (key, vk_old, e), step)
+                    continue
+                if not domain.eq(value, storeops.val(vals, vk_old)):
+                    fail("a memento of an earlier write reads another value through the backend that wrote it",
+                         "memento of the earlier write of %s expected %s got %s" % (key, vk_old, domain.describe(value, 60)), step)
             # secondary, layout-dependent: one version directory per content hash
             vdir = os.path.join(sc.path("d"), "c", ".versions")
             if os.path.isdir(vdir):
